@@ -18,6 +18,7 @@ RULES = {
     "R-C09-lower": "index >= 0 at every unchecked memoryview access (wraparound=False), or >= -len if wraparound is on",
     "R-C09-upper": "index <= len(buffer) - 1 at every unchecked memoryview access",
     "R-C09-xcheck": "(thorough) an exact bounded walk with 3 loop iterations cross-checks the proof",
+    "R-C09-raw": "memory is touched only through indexed memoryview accesses: no memcpy / memmove / pointer arithmetic on the address of a memoryview element (a block copy from a general `[:]` view reads physically adjacent bytes - the skipped elements of a strided view, or bytes before / after the buffer of a reversed one); expected count 0",
     "R-C09-scope": "every kernel with unchecked memoryview accesses is inside the analysable subset (affine indices, while/if/break structure)",
 }
 
@@ -127,6 +128,32 @@ def main(tier):
             where = "set_operations:%s" % f.name
             rep.check(not bad, "R-C09-xcheck", where, "bounded exact exploration (3 iterations) finds no out-of-bounds access",
                       "%d sites explored exactly" % len(b.sites), "exact exploration reaches %s out of bounds although the invariant proof passed" % (bad and bad[0].desc))
+    # R-C09-raw: raw memory calls and address-of on memoryview elements
+    from sa.cyfront import tname, walk
+    n_raw = 0
+    for f in funcs:
+        where = "set_operations:%s" % f.name
+        argtypes = {a.name: str(a.type) for a in f.node.args}
+        for n in walk(f.node.body):
+            if tname(n) == "SimpleCallNode" and tname(n.function) == "NameNode" and n.function.name in ("memcpy", "memmove", "memset", "memcmp"):
+                n_raw += 1
+                args = n.args if getattr(n, "args", None) is not None else n.arg_tuple.args
+                general = []
+                for a in args[:2]:
+                    for x in walk(a):
+                        if tname(x) == "MemoryViewIndexNode" and tname(x.base) == "NameNode":
+                            t = argtypes.get(x.base.name)
+                            if t is not None and "::1" not in t:  # a caller-supplied view; local views of numpy.empty(...) are contiguous
+                                general.append((x.base.name, t))
+                if general:
+                    rep.violated("R-C09-raw", "%s@%d" % (where, n.pos[1]), "%s on memoryview storage" % n.function.name,
+                                 "%s copies physically adjacent bytes starting at &%s[...], but %s is a general typed memoryview (%s) that accepts strided and reversed views: the bytes read are not the view's elements and, "
+                                 "for a negative stride or a step > 1 near the end of the owner, lie outside the owner's buffer" % (n.function.name, general[0][0], general[0][0], general[0][1]),
+                                 witness={"inputs": "an operand passed as base[::2] or desc[::-1] with two or more elements left when the other operand is exhausted"})
+                else:
+                    rep.undecided("R-C09-raw", "%s@%d" % (where, n.pos[1]), "%s on memoryview storage" % n.function.name, "block copy between contiguous buffers: the byte count is not bounded by this analysis")
+    if n_raw == 0:
+        rep.proved("R-C09-raw", "set_operations", "no raw memory call in any kernel", "%d functions scanned for memcpy / memmove / memset / memcmp" % len(funcs))
     rep.analysed["kernels"] = analysed
     rep.analysed["content_aware_kernels"] = many
     for dk in DECLINED:
